@@ -57,9 +57,24 @@ def main():
         if a.prop not in REGISTRY:
             print(f"unknown property {a.prop}")
             sys.exit(2)
-        os.environ["VERIF_WORK"] = os.path.join(CK.VERIF, ".work", a.prop)
+        # a private scratch directory per invocation: the same check may run several times side by side (quick and
+        # thorough, several seeds, trials on seeded changes) without one run deleting the other's TLC state files
+        import atexit
+        import time
+        base = os.environ.get("VERIF_WORK") or os.path.join(CK.VERIF, ".work")
+        os.makedirs(base, exist_ok=True)
+        for d in os.listdir(base):                     # leftovers of killed runs (older than 12 h)
+            q = os.path.join(base, d)
+            try:
+                if os.path.isdir(q) and time.time() - os.path.getmtime(q) > 12 * 3600:
+                    shutil.rmtree(q, ignore_errors=True)
+            except OSError:
+                pass
+        os.environ["VERIF_WORK"] = os.path.join(base, f"{a.prop}-{a.tier}-{os.getpid()}")
         tlc.WORK = os.environ["VERIF_WORK"]
         _clean_work()
+        main_pid = os.getpid()
+        atexit.register(lambda: os.getpid() == main_pid and shutil.rmtree(tlc.WORK, ignore_errors=True))
         mod, fn = REGISTRY[a.prop]
         f = getattr(importlib.import_module(mod), fn)
         CK.main_wrapper(lambda: f(a.prop, a.tier, seed))
